@@ -130,7 +130,37 @@ pub fn run_pkg(cx: &mut Cx, sub: u64, pkg: &Pkg, rt: &Runtime<NoCtx>, cap: &mut 
             observed: json!({"log": marks(&compile_log)}),
         });
     }
+    if pkg.typecheck_alone {
+        // the path of `roto check`: parse and type check, nothing else
+        let r = catch(|| tree(pkg.shape, &pkg.srcs).parse().and_then(|p| p.typecheck(rt).map(|_| ())).is_ok());
+        exec += 1;
+        match r {
+            Err(p) => viols.push(Viol {
+                class: "panic",
+                expected: json!("parse + typecheck return"),
+                observed: json!({"panic": p}),
+            }),
+            Ok(ok) if ok == pkg.ill_typed => viols.push(Viol {
+                class: "typecheck",
+                expected: json!({"typecheck_ok": !pkg.ill_typed}),
+                observed: json!({"typecheck_ok": ok}),
+            }),
+            _ => {}
+        }
+    }
     let (mut p1, mut p2) = match (c1, c2) {
+        (Compiled::Ok(_), Compiled::Ok(_)) if pkg.ill_typed => {
+            cx.transitions(exec);
+            viols.push(Viol {
+                class: "ill_typed_accepted",
+                expected: json!("a compile error is reported"),
+                observed: json!("compiled"),
+            });
+            for v in viols {
+                cx.violation(v.class, sub, pkg.to_json(), v.expected, v.observed);
+            }
+            return;
+        }
         (Compiled::Ok(a), Compiled::Ok(b)) => {
             if pkg.dup_names {
                 cx.count("dup_names_compiled", 1);
@@ -139,13 +169,23 @@ pub fn run_pkg(cx: &mut Cx, sub: u64, pkg: &Pkg, rt: &Runtime<NoCtx>, cap: &mut 
         }
         (Compiled::Panic(p), _) | (_, Compiled::Panic(p)) => {
             cx.transitions(exec);
-            cx.violation("panic", sub, pkg.to_json(), json!("compiles"), json!({"panic": p}));
+            let want = if pkg.ill_typed { "a compile error is reported" } else { "compiles" };
+            cx.violation("panic", sub, pkg.to_json(), json!(want), json!({"panic": p}));
+            for v in viols {
+                cx.violation(v.class, sub, pkg.to_json(), v.expected, v.observed);
+            }
             return;
         }
         (Compiled::Report(a), Compiled::Report(_)) => {
             cx.transitions(exec);
             cx.validated(1);
-            if pkg.dup_names {
+            for v in std::mem::take(&mut viols) {
+                cx.violation(v.class, sub, pkg.to_json(), v.expected, v.observed);
+            }
+            if pkg.ill_typed {
+                cx.count("ill_typed_rejected", 1);
+                cx.outcome(mix(0x111, 0));
+            } else if pkg.dup_names {
                 // "The name must be unique" (language reference, Tests)
                 cx.count("dup_names_rejected", 1);
                 cx.outcome(mix(0xd0, 0));
